@@ -209,9 +209,10 @@ def raw_sinks(b):
         if is_noise(c):
             continue
         d = c.def_
-        if c.is_("metrique_writer_format_emf::buf::PrefixedStringBuf::push_raw_str"):
+        on_buf = d.startswith("metrique_writer_format_emf::buf::PrefixedStringBuf::")
+        if on_buf and c.name == "push_raw_str":        # (role names: see Facts._role_aliases)
             out.append((c, 1, "push_raw_str"))
-        elif c.is_("metrique_writer_format_emf::buf::PrefixedStringBuf::push"):
+        elif on_buf and c.name == "push":
             out.append((c, 1, "push"))
         elif d in ("alloc::string::String::push_str", "alloc::string::String::push", "alloc::string::String::insert_str") and not b.path.startswith(CR + "::json_string"):
             out.append((c, len(c.args) - 1, c.name))
